@@ -25,3 +25,55 @@ for _cls, _gc in _GC.items():
              ensures=[("keeps-flow-and-flow-type", lambda E: And(E.self.V_flow == E.v_flow, E.self.flow_type == E.flow_type))], returns=NoneT()).applies = lambda env: False
     DESIGN_CTORS.append(_n)
 
+
+# ---- Design*.find_design builds its search object with the design's own flow rate and flow type ------------------------------------------------------------
+# (flow views of the search constructors: what a constructor does with the two flow arguments; Bisection1D.__init__ is verified to store them (C01: clause
+#  'fields'), Bisection2D / BisectionZD forward them to Bisection1D.__init__(search=False) and carry the clause 'stores-flow-specification' on their bodies,
+#  RowWiseModifiedBisectionSearch.__init__ is verified below)
+S_ = "ghedesigner.search_routines"
+_SEARCH_CLS = {"DesignNearSquare": "Bisection1D", "DesignRectangle": "Bisection1D", "DesignBiRectangle": "Bisection2D", "DesignBiZoned": "BisectionZD",
+               "DesignBiRectangleConstrained": "BisectionZD", "DesignRowWise": "RowWiseModifiedBisectionSearch"}
+_COMMON = dict(v_flow=Real, borehole=ObjOf("x"), bhe_type=Int, fluid=ObjOf("x"), pipe=ObjOf("x"), grout=ObjOf("x"), soil=ObjOf("x"), sim_params=ObjOf("x"),
+               hourly_extraction_ground_loads=OpaqueOf("list"), method=OpaqueOf("enum"), flow_type=Int)
+for _scls in sorted(set(_SEARCH_CLS.values())):
+    if _scls == "RowWiseModifiedBisectionSearch":
+        _params = dict(self=ObjOf(f"{S_}:{_scls}"), **_COMMON, geometric_constraints=ObjOf("x"))
+    elif _scls == "Bisection1D":
+        _params = dict(self=ObjOf(f"{S_}:{_scls}"), coordinates_domain=OpaqueOf("domain"), field_descriptors=OpaqueOf("list"), **_COMMON)
+    else:
+        _params = dict(self=ObjOf(f"{S_}:{_scls}"), coordinates_domain_nested=OpaqueOf("domain"), field_descriptors=OpaqueOf("list"), **_COMMON)
+    contract(f"{S_}:{_scls}.__init__", _params, name=f"{S_}:{_scls}.__init__#flow-view", raises={"Exception": None, "ValueError": None}, returns=NoneT(),
+             assigns=[((lambda P, k=k: (P.self, k)), sh) for k, sh in dict(V_flow=AliasOf(lambda P: P.v_flow), flow_type=AliasOf(lambda P: P.flow_type)).items()],
+             notes="caller view for the flow plumbing: the search object keeps the flow rate and the flow type it is given").applies = lambda env: "#flow-body" in env["__verifying__"]
+    REG.contracts[f"{S_}:{_scls}.__init__#flow-view"].priority = 1
+
+FIND_DESIGN_FLOW = []
+for _cls, _scls in _SEARCH_CLS.items():
+    _n = f"{D_}:{_cls}.find_design#flow-body"
+    contract(f"{D_}:{_cls}.find_design",
+             dict(self=ObjOf(f"{D_}:{_cls}", V_flow=Real, flow_type=Int, borehole=ObjOf("x"), bhe_type=Int, fluid=ObjOf("x"), pipe=ObjOf("x"), grout=ObjOf("x"), soil=ObjOf("x"),
+                             sim_params=ObjOf("x"), hourly_extraction_ground_loads=OpaqueOf("list"), method=OpaqueOf("enum"), load_years=OpaqueOf("list"),
+                             geometric_constraints=ObjOf("x"), coordinates_domain=OpaqueOf("domain"), coordinates_domain_nested=OpaqueOf("domain"), fieldDescriptors=OpaqueOf("list")),
+                  disp=Const(False)),
+             name=_n, raises={"Exception": None, "ValueError": None},
+             ensures=[("search-uses-the-design's-flow-rate-and-flow-type", lambda E: And(E.result.V_flow == E.self.V_flow, E.result.flow_type == E.self.flow_type))],
+             returns=ObjOf(f"{S_}:{_scls}")).applies = lambda env: False
+    FIND_DESIGN_FLOW.append(_n)
+
+# RowWiseModifiedBisectionSearch.__init__: stores the flow rate and the flow type before it searches (search() and initialize_ghe() abstract here: they do not write them)
+_RWS = f"{S_}:RowWiseModifiedBisectionSearch"
+contract(f"{_RWS}.search", dict(self=ObjOf(_RWS)), name=f"{_RWS}.search#flow-view", raises={"Exception": None, "ValueError": None},
+         assigns=[((lambda P, k=k: (P.self, k)), sh) for k, sh in dict(ghe=OpaqueOf("ghe"), searchTracker=OpaqueOf("list"), advanced_tracking=OpaqueOf("list"), checkedFields=OpaqueOf("list")).items()],
+         returns=TupleOf(OpaqueOf("field"), OpaqueOf("str")),
+         notes="frame of the verified search() (rowsearch.py: self.ghe, searchTracker, advanced_tracking[], checkedFields[])").applies = lambda env: "#flow-body" in env["__verifying__"]
+contract(f"{_RWS}.initialize_ghe", dict(self=ObjOf(_RWS), coordinates=OpaqueOf("field"), h=Real, field_specifier=OpaqueOf("str")), name=f"{_RWS}.initialize_ghe#flow-view",
+         raises={"Exception": None, "ValueError": None}, assigns=[(lambda P: (P.self, "ghe"), OpaqueOf("ghe"))], returns=NoneT(),
+         notes="frame of the verified initialize_ghe() (flow.py: self.ghe; the borehole height)").applies = lambda env: "#flow-body" in env["__verifying__"]
+for _q in (f"{_RWS}.search#flow-view", f"{_RWS}.initialize_ghe#flow-view"):
+    REG.contracts[_q].priority = 1
+contract(f"{_RWS}.__init__",
+         dict(self=ObjOf(_RWS), v_flow=Real, borehole=ObjOf("x"), bhe_type=Int, fluid=ObjOf("x"), pipe=ObjOf("x"), grout=ObjOf("x"), soil=ObjOf("x"),
+              sim_params=ObjOf("sim", max_height=Real), hourly_extraction_ground_loads=OpaqueOf("list"), geometric_constraints=ObjOf("x"), method=OpaqueOf("enum"), flow_type=Int),
+         name=f"{_RWS}.__init__#flow-body", raises={"Exception": None, "ValueError": None}, assigns=writes("self.*"),
+         ensures=[("stores-flow-specification", lambda E: And(E.self.flow_type == E.flow_type, E.self.V_flow == E.v_flow))], returns=NoneT()).applies = lambda env: False
+FIND_DESIGN_FLOW.append(f"{_RWS}.__init__#flow-body")
